@@ -29,7 +29,7 @@ const (
 func (r SatResult) String() string { return [...]string{"unsat", "sat", "unknown"}[r] }
 
 type SolverStats struct {
-	Queries, SatN, UnsatN, UnknownN, Errors, Fallbacks int64
+	Queries, SatN, UnsatN, UnknownN, Errors, Fallbacks, TacticRetries int64
 	Nanos                                               int64
 }
 
@@ -45,7 +45,9 @@ type Session struct {
 	pathLog []string // declarations, definitions, assertions of the current path
 	pending strings.Builder
 	marker  int
-	timeout int // ms per query (incremental)
+	timeout int // ms per query (tactic stage)
+	incTimeout int // ms for the incremental stage
+	tacticOnly bool // skip the incremental stage
 	hardTimeout int // ms for the one-shot fallback
 	teeDir  string
 	teeN    *atomic.Int64
@@ -54,7 +56,7 @@ type Session struct {
 }
 
 func NewSession(bin string, args []string) (*Session, error) {
-	s := &Session{bin: bin, args: args, timeout: 20000, hardTimeout: 120000}
+	s := &Session{bin: bin, args: args, timeout: 30000, incTimeout: 400, hardTimeout: 120000}
 	if err := s.start(); err != nil {
 		return nil, err
 	}
@@ -62,6 +64,16 @@ func NewSession(bin string, args []string) (*Session, error) {
 }
 
 func (s *Session) start() error {
+	if err := s.startProc(); err != nil {
+		return err
+	}
+	s.defined = map[*Term]string{}
+	s.pathLog = nil
+	s.preamble()
+	return nil
+}
+
+func (s *Session) startProc() error {
 	s.cmd = exec.Command(s.bin, s.args...)
 	in, err := s.cmd.StdinPipe()
 	if err != nil {
@@ -77,10 +89,7 @@ func (s *Session) start() error {
 	}
 	s.in = in
 	s.out = bufio.NewReaderSize(out, 1<<16)
-	s.defined = map[*Term]string{}
-	s.pathLog = nil
 	s.pending.Reset()
-	s.preamble()
 	return nil
 }
 
@@ -89,6 +98,17 @@ func (s *Session) preamble() {
 	if strings.Contains(s.bin, "z3") {
 		s.raw(fmt.Sprintf("(set-option :timeout %d)", s.timeout))
 	}
+}
+
+// respawn replaces the solver process by a fresh one (no state).
+func (s *Session) respawn() error {
+	defined, log := s.defined, s.pathLog
+	s.Close()
+	if err := s.startProc(); err != nil {
+		return err
+	}
+	s.defined, s.pathLog = defined, log
+	return nil
 }
 
 func (s *Session) Close() {
@@ -265,20 +285,50 @@ func (s *Session) Check(extra *Term, wantModel bool, vars []*Term) (SatResult, m
 	if q != "" {
 		s.raw("(assert " + q + ")")
 	}
-	s.raw("(check-sat)")
-	lines, err := s.sync()
-	if err != nil {
-		return Unknown, nil, err
+	isZ3 := strings.Contains(s.bin, "z3")
+	var lines []string
+	var err error
+	res, etext := Unknown, ""
+	// stage 1: incremental core with a short timeout (fast on arithmetic-light paths)
+	if !s.tacticOnly || !isZ3 {
+		if isZ3 {
+			s.raw(fmt.Sprintf("(set-option :timeout %d)", s.incTimeout))
+		}
+		s.raw("(check-sat)")
+		if lines, err = s.sync(); err != nil {
+			return Unknown, nil, err
+		}
+		res, etext = parseCheck(lines)
+		if res == Unknown && etext == "" && isZ3 {
+			atomic.AddInt64(&gStats.TacticRetries, 1)
+		}
 	}
-	res, etext := parseCheck(lines)
+	// stage 2: the bit-vector tactic, stateless, on the same assertion stack
+	if res == Unknown && etext == "" && isZ3 {
+		s.raw(fmt.Sprintf("(set-option :timeout %d)", s.timeout))
+		s.raw("(check-sat-using qfbv)")
+		if lines, err = s.sync(); err != nil {
+			return Unknown, nil, err
+		}
+		res, etext = parseCheck(lines)
+	}
 	s.tee(q, res)
-	if etext != "" {
+	if d := os.Getenv("GOSYM_SLOW_DIR"); d != "" && time.Since(t0) > 2*time.Second {
+		var sb strings.Builder
+		fmt.Fprintf(&sb, "; %s in %.1fs\n", res, time.Since(t0).Seconds())
+		for _, l := range s.pathLog {
+			sb.WriteString(l + "\n")
+		}
+		sb.WriteString("(assert " + q + ")\n(check-sat)\n")
+		os.WriteFile(fmt.Sprintf("%s/slow-%d-%d.smt2", d, os.Getpid(), time.Now().UnixNano()), []byte(sb.String()), 0o644)
+	}
+	if etext != "" && !strings.Contains(etext, "canceled") {
 		atomic.AddInt64(&gStats.Errors, 1)
 		s.lastErr = etext
 		s.raw("(pop 1)")
 		return Unknown, nil, fmt.Errorf("solver error: %s", etext)
 	}
-	if res == Unknown {
+	if res == Unknown || etext != "" {
 		s.raw("(pop 1)")
 		res2, model, err := s.oneShot(q, wantModel, vnames, vars)
 		if err == nil {
@@ -424,7 +474,9 @@ func tokenize(s string) []string {
 // the query, a long timeout. Afterwards the incremental state is rebuilt.
 func (s *Session) oneShot(q string, wantModel bool, vnames []string, vars []*Term) (SatResult, map[string]uint64, error) {
 	atomic.AddInt64(&gStats.Fallbacks, 1)
-	s.raw("(reset)")
+	if err := s.respawn(); err != nil {
+		return Unknown, nil, err
+	}
 	s.raw("(set-option :produce-models true)")
 	if strings.Contains(s.bin, "z3") {
 		s.raw(fmt.Sprintf("(set-option :timeout %d)", s.hardTimeout))
@@ -445,8 +497,10 @@ func (s *Session) oneShot(q string, wantModel bool, vnames []string, vars []*Ter
 	if etext == "" && res == Sat && wantModel && len(vars) > 0 {
 		model, err = s.getModel(vnames, vars)
 	}
-	// rebuild incremental state
-	s.raw("(reset)")
+	// rebuild incremental state in a fresh process (a timed-out z3 can stay "canceled")
+	if err2 := s.respawn(); err2 != nil {
+		return Unknown, nil, err2
+	}
 	s.preamble()
 	s.raw("(push 1)")
 	for _, l := range s.pathLog {
